@@ -4,36 +4,7 @@ from pathlib import Path
 
 VERIF = Path(__file__).resolve().parent.parent
 
-CHECKS = {
-    "C02": dict(
-        category="model_checking",
-        text="AStar.tla (one action per solver loop iteration, every tie-break) is model-checked exhaustively over all graphs x all ordered pairs on every shape <= 3x3 (thorough: + 1x4..4x2); the real solver is run on the same exhaustive small scope and on seeded random graphs up to 15x15, every call judged by the TLA+ BFS oracle (Trace_SP), and loop-head snapshots of real executions are matched step by step to AStar!Iterate (Trace_AStar).",
-        design_ref="DESIGN.md §3 C02",
-        note="Trusted: TLC, CommunityModules JSON reader, CPython/numpy. Exhaustive only for the stated shapes; larger graphs sampled. Layer M (step conformance) needs sys.settrace snapshots; if unavailable only Layer P decides.",
-        technique="TLA+ model checking (TLC) of the solver + trace validation of real executions against the spec",
-    ),
-    "C01": dict(
-        category="model_checking",
-        text="GenDFS.tla (one action per loop iteration of gen_dfs/gen_prim, percolation OR-step for gen_dfs_percolation), GenWilson.tla (PickStart/Step with loop erasure and commit) and GenPerc.tla are model-checked by TLC over every random choice on small grids (InGrid, spanning tree with default args, p=0/p=1 rules). The real generators are bound to them three ways: every random execution of the real code on small grids is enumerated through a scripted RNG (the code's own decision tree; Wilson: closure of its learned chain) and judged by the TLA+ clauses (GenOracle!Clauses01); seeded natural runs of all five generators on shapes 1..8 x 1..8 with random accepted kwargs are judged the same way; loop-head snapshots of real runs are matched step by step to GenDFS!Iter / GenWilson!Step (Layer M).",
-        design_ref="DESIGN.md §3 C01",
-        note="Trusted: TLC, CommunityModules JSON reader, CPython/numpy. Exhaustive only for the enumerated shapes (<= 4x4 default args quick, 4x5 thorough; argument matrix <= 3x2/3x3; coin arrays <= 2x2/2x3); larger grids sampled. Assumes randomness reaches the generators only through random.choice/randint and numpy.random.randint/choice/rand (checked at run time by running scripts twice).",
-        technique="TLA+ model checking (TLC) of the generator state machines + exhaustive scripted-RNG execution of the real code and trace validation against the spec",
-    ),
-    "C12": dict(
-        category="model_checking",
-        text="The generator models of C01 carry the generation_meta variables; TLC checks MetaTruth, DoneCount, Corridor and TreeOnVisited in every state over the full argument matrix (accessible_cells x max_tree_depth x do_forks x randomized_stack x start, percolation coin arrays) on small grids. The same exhaustive scripted-RNG executions and seeded natural runs of the real generators as C01 are judged by GenOracle!Clauses12 on the raw returned array and raw generation_meta, and generate_random_path() draws on every observed maze must give mutually reachable endpoints.",
-        design_ref="DESIGN.md §3 C12",
-        note="Trusted: TLC, CommunityModules JSON reader, CPython/numpy. Exhaustive only for the enumerated small grids; float arguments are dyadic so the documented int(f*n) normalisation is exact. The clause on the requested number of accessible cells uses the harness's own normalisation of the argument, not the code's metadata.",
-        technique="TLA+ model checking (TLC) of the generators' metadata invariants + exhaustive scripted-RNG execution of the real code judged by the spec's clauses",
-    ),
-    "C19": dict(
-        category="model_checking",
-        text="GenWilson.tla's complete TLC state graph (2x2, 2x3, 3x2, 3x3) is turned into an absorbing Markov chain and its absorption distribution is judged by the TLA+ definition of uniformity (Uniform!DistClauses: terminal set = all spanning trees of the lattice, each with probability exactly 1/N). The same decision is then made on the REAL code's own chain, learned without the model by scripting numpy's RNG and snapshotting gen_wilson's loop heads (every answer of every request at every discovered state: 19 226 transitions on 3x3), solved exactly with fractions (<= 2x3) or by power iteration (3x3); the learned chain is also compared with the model's chain state by state (Layer M). A real-RNG frequency experiment per grid is judged by a chi-square bound in TLA+ as an independent fallback.",
-        design_ref="DESIGN.md §3 C19",
-        note="Trusted: TLC, the dot/TLA+-value parser, CPython/numpy, numpy's choice(n)/randint being uniform, the loop-head snapshot being a sufficient statistic of gen_wilson's state. Exact only on the listed grids. The frequency test has a stated false-alarm probability of 1e-9 per experiment.",
-        technique="TLA+ model (TLC state graph as Markov chain) + exact absorption analysis of the code's own learned chain judged by a TLA+ uniformity predicate",
-    ),
-}
+CHECKS = json.loads((VERIF / "harness" / "manifest_entries.json").read_text())
 
 NOT_YET = {}
 
